@@ -89,4 +89,6 @@ def usableValue : Except ShmErr Header → Value
   | .ok _ => okUnit
   | .error e => .enumv "Err" [shmErrValue e]
 
+rs_realize_eqns wipeEvents mapEvents openDecision openCount openEvents2 openEvents usableValue
+
 end ClockBound.Rs.WriterNewProof
